@@ -21,7 +21,7 @@ func (propC20) ID() string { return "C20" }
 const c20Handles = 4
 const c20Slices = 2
 
-var c20Hosts = []string{"int", "int32", "uint", "uint32", "int64", "float32", "float64", "bool", "string", "time", "duration", "array", "variant", "nil", "struct", "slice", "map", "goarray", "structslice", "ptr", "ifacestruct", "func", "variantvalue"}
+var c20Hosts = []string{"int", "int32", "uint", "uint32", "int64", "float32", "float64", "bool", "string", "time", "duration", "array", "variant", "nil", "struct", "slice", "map", "goarray", "structslice", "ptr", "ifacestruct", "func", "variantvalue", "nilptr", "nilvariant"}
 
 type c20Struct struct{ A int }
 
@@ -257,6 +257,8 @@ func (propC20) Exec(p *Plan, x *Ctx) *Outcome {
 			share int // handle whose payload may be shared (-1 none)
 			ok    bool
 			ids   []int // element objects when the value is a list built from existing objects
+			// observe: the model takes the value over from the variant (no assertion beyond "does not fail")
+			observe bool
 		}
 		host := func(o Op) hostRes {
 			v := VNull()
@@ -310,12 +312,12 @@ func (propC20) Exec(p *Plan, x *Ctx) *Outcome {
 				slices[o.J] = fill(o.Vs)
 				sliceModel[o.J] = append([]Val{}, o.Vs...)
 				sliceIDs[o.J] = newIDs(o.Vs)
-				return hostRes{slices[o.J], VArr(o.Vs...), -1, true, append([]int{}, sliceIDs[o.J]...)}
+				return hostRes{slices[o.J], VArr(o.Vs...), -1, true, append([]int{}, sliceIDs[o.J]...), false}
 			case "variant":
 				if !inRange(o.H2) || o.H2 == o.H {
 					return hostRes{}
 				}
-				return hostRes{hs[o.H2], ms[o.H2].v, o.H2, true, append([]int{}, ms[o.H2].ids...)}
+				return hostRes{hs[o.H2], ms[o.H2].v, o.H2, true, append([]int{}, ms[o.H2].ids...), false}
 			case "nil":
 				return hostRes{val: nil, model: VNull(), share: -1, ok: true}
 			case "struct":
@@ -347,10 +349,21 @@ func (propC20) Exec(p *Plan, x *Ctx) *Outcome {
 				return hostRes{val: s, model: Val{T: "Object", S: fmt.Sprintf("%T:%v", s, s)}, share: -1, ok: true}
 			case "func":
 				return hostRes{val: c20Func, model: Val{T: "Object", S: "func(int) int:c20Func"}, share: -1, ok: true}
+			case "nilptr": // a typed nil pointer is an "other" host value like any pointer
+				var s *c20Struct
+				return hostRes{val: s, model: Val{T: "Object", S: fmt.Sprintf("%T:%v", s, s)}, share: -1, ok: true}
+			case "nilvariant":
+				// a nil *Variant is a host value of a supported type: building from it must not fail; what type
+				// it gives (Null is the obvious one) is not pinned down by the statement, so the model takes
+				// over what is observed
+				return hostRes{val: (*variants.Variant)(nil), model: VNull(), share: -1, ok: true, observe: true}
 			}
 			return hostRes{}
 		}
 		applyHost := func(h int, r hostRes) {
+			if r.observe {
+				r.model = FromVariant(hs[h])
+			}
 			srcKnown := true
 			if r.share >= 0 {
 				srcKnown = ms[r.share].known
